@@ -2,7 +2,7 @@
 import hashlib
 import operator
 
-from zope.interface import Interface, implementedBy
+from zope.interface import Interface, classImplements, implementedBy, implementer
 from zope.interface.interface import INTERFACE_METHODS, InterfaceClass
 
 NAMES = ['', 'A', 'AB', 'a', '\xe9', 'é', 'B', 'A_', 'Z', '\U0001f600']
@@ -21,6 +21,16 @@ class NoAttrs:
 
 class SubInterfaceClass(InterfaceClass):
     pass
+
+
+class RecordingInterfaceClass(InterfaceClass):
+    """An interface that notes the sort key of every dependent at the moment it subscribes (what a container that
+    keeps dependents sorted would see)."""
+    seen = []
+
+    def subscribe(self, dependent):
+        RecordingInterfaceClass.seen.append((dependent, getattr(dependent, '__name__', None), getattr(dependent, '__module__', None)))
+        return InterfaceClass.subscribe(self, dependent)
 
 
 def run_case(ctx, rng, job):
@@ -60,6 +70,45 @@ def run_case(ctx, rng, job):
             ifs.append(InterfaceClass(fresh(t.__name__), (Interface,),
                                       {INTERFACE_METHODS: {'extra_method': lambda self: 1}}, __module__=fresh(t.__module__)))
         ctx.count('twins_of_another_concrete_class')
+    # the key of a specification is fixed: whatever (name, module) a dependent shows when it subscribes to a base is
+    # what it shows ever after (specifications built around constructor bases: factories, old-style declarations)
+    del RecordingInterfaceClass.seen[:]
+    IRec = RecordingInterfaceClass('IRec', (Interface,), {}, __module__='m')
+
+    def factory_function():
+        pass
+    implementer(IRec)(factory_function)
+    LegacyCls = type('Legacy', (), {'__implemented__': (IRec,)})
+    implementedBy(LegacyCls)
+    Plain = type('Plain', (), {})
+    classImplements(Plain, IRec)
+    InterfaceClass('IRecSub', (IRec,), {}, __module__='m')
+    for dep, n0, m0 in RecordingInterfaceClass.seen:
+        ctx.ev()
+        ctx.count('dependent_keys_recorded_at_subscription')
+        if (getattr(dep, '__name__', None), getattr(dep, '__module__', None)) != (n0, m0):
+            ctx.violation('key-changed-after-subscription', {'at_subscription': [str(n0), str(m0)],
+                                                             'now': [str(getattr(dep, '__name__', None)), str(getattr(dep, '__module__', None))]})
+    # specifications synthesised for super() objects of distinctly named classes are distinct specifications with
+    # distinct keys: any two of them are strictly ordered one way or the other
+    SBase = type('SBase', (), {})
+    SMixin = type('SMixin', (SBase,), {})
+    SOne = type('SOne', (SMixin,), {})
+    STwo = type('STwo', (SMixin,), {})
+    SThree = type('SThree', (STwo,), {})
+    for c_ in (SBase, SMixin, SOne, STwo, SThree):
+        c_.__module__ = 'm'
+    supers = [implementedBy(super(SMixin, SOne)), implementedBy(super(SMixin, STwo)), implementedBy(super(SMixin, SThree)),
+              implementedBy(super(SOne, SOne)), implementedBy(super(STwo, SThree)), implementedBy(super(SMixin, SOne()))]
+    for x in supers:
+        for y in supers:
+            if x is y:
+                continue
+            ctx.ev()
+            ctx.count('super_specification_pairs')
+            if key(x) == key(y) or (x < y) == (y < x) or (x < y) != (key(x) < key(y)) or x == y:
+                ctx.violation('super-specifications-not-strictly-ordered', {'a': list(key(x)), 'b': list(key(y)),
+                                                                            'a<b': x < y, 'b<a': y < x})
     classes = []
     for _ in range(rng.randint(2, 4)):
         c = type(rng.choice(['A', 'B', 'Z', 'K']), (), {})
